@@ -821,9 +821,10 @@ def r116(rep: Report, ctx: Ctx) -> None:
              "its logic node", 10)
     check_table(rep, ctx, "R1.17", TABLE, ["LogicBlockHolder.__init__"])
     rep.rule("R1.18", "AND / OR merges are validated against the predecessor "
-             "sets of the merge node (multiset of all arriving paths)", 5)
+             "sets of the merge node (multiset of all arriving paths)", 11)
     check_table(rep, ctx, "R1.18", TABLE,
-                ["LogicBlockHolder._check_merge_is_correct"])
+                ["LogicBlockHolder._check_merge_is_correct",
+                 "LogicBlockHolder.handle_path_merge"])
     # (shared with C04 R4.1)  a loaded event without a gate tree has no
     # outgoing logic: the walk follows one successor and the diagram rejects
     # the jobs the model was learned from
